@@ -2416,7 +2416,7 @@ impl<'a> Visitor<'a> {
 
                         args.positional
                             .into_iter()
-                            .map(|arg| arg.to_css_string(span, self.options.is_compressed()))
+                            .map(|arg| arg.to_css_string(span, false))
                             .collect::<SassResult<Vec<_>>>()?
                     }
                 };
@@ -2894,7 +2894,7 @@ impl<'a> Visitor<'a> {
             expr = expr.unquote();
         }
 
-        expr.to_css_string(span, self.options.is_compressed())
+        expr.to_css_string(span, false)
     }
 
     pub(crate) fn visit_ruleset(&mut self, ruleset: AstRuleSet) -> SassResult<Option<Value>> {
